@@ -44,7 +44,8 @@ func init() {
 	Register(&Prop{
 		ID:    "C07",
 		Title: "CTEs, derived tables and subqueries equal staged evaluation",
-		Rule: "(about 2% of the composition cases expand table t to 200-700 rows by a recipe.) rapid draws a document (table t with scalar columns and a nested array column, flat table t2) and either a composed pipeline " +
+		Rule: "[Dimensions added in rounds p-r of the seeded-defect evaluation: root sub queries also correlated with the outer row through a comparison in their select list (CASE WHEN col > `<-.k`); a sixth of the enveloped cases run after 1-3 failing statements.] " +
+			"(about 2% of the composition cases expand table t to 200-700 rows by a recipe.) rapid draws a document (table t with scalar columns and a nested array column, flat table t2) and either a composed pipeline " +
 			"(WITH c AS (Qi) Qo(c); Qo((Qi) x); chains c1->c2->outer; a CTE referenced twice through a self-join, through FROM plus an " +
 			"IN-subquery, through a filtering CTE plus a join, or through a filtered FROM plus an aggregating subquery; FROM `c.items` on an array-valued CTE column; a third of the outer stages of every shape, aggregates included, end in LIMIT n [OFFSET m]) that must equal the staged evaluation over materialised intermediate " +
 			"results passed in as plain input, or a subquery form (select-item subquery on the row / on `<-` the enclosing document, also correlated with the outer row through `<-.col`; IN-subquery on the row and on the root, " +
